@@ -109,6 +109,10 @@ pub fn pinned_div_nxm(_numerator: &mut [u64], _divisor: &mut [u64]) {
     panic!("pinned: div_nxm not expected at this shape")
 }
 
+pub fn pinned_from_u128_prefix(_r0: u128, _r1: u128) -> ruint::algorithms::LehmerMatrix {
+    panic!("pinned: from_u128_prefix not expected at widths <= 64 bits")
+}
+
 // ---- abstract residue (C10): `reduce_mod` replaced by "any value below the
 // modulus" (0 for modulus 0); the harness reads back what was returned.
 pub static mut RESIDUE_LOG: [[u64; 8]; 2] = [[0; 8]; 2];
@@ -288,4 +292,14 @@ pub fn log2_table(x: f64) -> f64 {
     let k = x as u64;
     assert!(k as f64 == x && k >= 1 && k <= 255, "log2 stub: argument outside the table");
     LOG2_TABLE[k as usize]
+}
+
+// ---- C10 (compositional, narrow widths): mul_mod replaced by its specification, which the `narrow` mul_mod
+// harnesses decide against the real code for every (a, b, m) at the same widths.
+pub fn mul_mod_spec1<const BITS: usize, const LIMBS: usize>(a: Uint<BITS, LIMBS>, b: Uint<BITS, LIMBS>, m: Uint<BITS, LIMBS>) -> Uint<BITS, LIMBS> {
+    assert!(LIMBS == 1 && BITS <= 8, "mul_mod spec stub: narrow single-limb widths only");
+    let (a, b, m) = (a.as_limbs()[0] as u16, b.as_limbs()[0] as u16, m.as_limbs()[0] as u16);
+    let mut l = [0u64; LIMBS];
+    l[0] = if m == 0 { 0 } else { ((a * b) % m) as u64 };
+    Uint::from_limbs(l)
 }
